@@ -121,17 +121,40 @@ Proof.
     rewrite <- (map_length snd), firstn_all, zsum_sumZ. rewrite <- (fi_last _ _ Hinv'). exact Hw.
 Qed.
 
+(* every delta-carrying status so far belongs to a recorded arrival *)
+Definition marks_complete (syms : list Z) (marks : list (nat * Z * Z)) : Prop :=
+  forall k, (k < length syms)%nat -> is_delta_sym (nth k syms 0) = true -> exists s t, In (k, s, t) marks.
+
+Lemma add_complete f syms marks s t :
+  marks_complete syms marks ->
+  let syms' := syms ++ add_syms f s t in
+  marks_complete syms' (marks ++ [((length syms' - 1)%nat, s, t)]).
+Proof.
+  intros Hc syms' k Hk Hd. unfold syms', add_syms in *.
+  set (gap := Z.to_nat (sub16 s (f_next f))) in *. set (x := if _ && _ then 1 else 2) in *.
+  rewrite !app_length, repeat_length in *. cbn [length] in *.
+  destruct (Nat.lt_ge_cases k (length syms)) as [H1|H1].
+  - rewrite app_nth1 in Hd by exact H1. destruct (Hc k H1 Hd) as (s1 & t1 & Hin).
+    exists s1, t1. apply in_or_app. now left.
+  - destruct (Nat.lt_ge_cases k (length syms + gap)) as [H2|H2].
+    + rewrite app_nth2 in Hd by exact H1. rewrite app_nth1 in Hd by (rewrite repeat_length; lia).
+      rewrite nth_repeat in Hd. discriminate.
+    + exists s, t. apply in_or_app. right. left. f_equal. f_equal. lia.
+Qed.
+
 Lemma fb_adds_marks : forall tr f syms marks f',
-  fb_inv f syms -> Forall (mark_ok f syms) marks -> Forall (fun e : Z * Z => 0 <= fst e < 65536) tr ->
+  fb_inv f syms -> Forall (mark_ok f syms) marks -> marks_complete syms marks ->
+  Forall (fun e : Z * Z => 0 <= fst e < 65536) tr ->
   fb_adds f tr = Some f' ->
   exists syms' marks',
     fb_inv f' syms' /\ f_base f' = f_base f /\ f_ref f' = f_ref f /\
     Forall (mark_ok f' syms') (marks ++ marks') /\
-    Forall2 (fun (e : Z * Z) (m : nat * Z * Z) => snd (fst m) = fst e /\ snd m = snd e) tr marks'.
+    Forall2 (fun (e : Z * Z) (m : nat * Z * Z) => snd (fst m) = fst e /\ snd m = snd e) tr marks' /\
+    marks_complete syms' (marks ++ marks').
 Proof.
-  induction tr as [|[s t] tr IH]; intros f syms marks f' Hinv Hm Htr H; cbn [fb_adds] in H.
+  induction tr as [|[s t] tr IH]; intros f syms marks f' Hinv Hm Hcomp Htr H; cbn [fb_adds] in H.
   - inversion H; subst. exists syms, []. rewrite app_nil_r.
-    split; [exact Hinv|]. split; [reflexivity|]. split; [reflexivity|]. split; [exact Hm|constructor].
+    split; [exact Hinv|]. split; [reflexivity|]. split; [reflexivity|]. split; [exact Hm|]. split; [constructor|exact Hcomp].
   - destruct (fb_add_received f s t) as [f1|] eqn:E; [|discriminate].
     inversion Htr as [|? ? Hs Htr']; subst. cbn [fst] in Hs.
     destruct (fb_add_inv f syms s t f1 Hinv E) as (Hinv1 & _ & Hb1 & Hr1).
@@ -141,15 +164,96 @@ Proof.
     assert (Hm1 : Forall (mark_ok f1 syms1) (marks ++ [((length syms1 - 1)%nat, s, t)])).
     { apply Forall_app. split; [|constructor; [exact Hnew|constructor]].
       eapply Forall_impl; [|exact Hm]. intros m Hmk. apply (mark_mono f syms f1 _ d); assumption. }
-    destruct (IH f1 syms1 _ f' Hinv1 Hm1 Htr' H) as (syms' & marks' & Hinv' & Hb' & Hr' & Hall & Hf2).
-    exists syms', (((length syms1 - 1)%nat, s, t) :: marks'). rewrite <- app_assoc in Hall. cbn [app] in Hall.
+    pose proof (add_complete f syms marks s t Hcomp) as Hcomp1. cbv zeta in Hcomp1. fold syms1 in Hcomp1.
+    destruct (IH f1 syms1 _ f' Hinv1 Hm1 Hcomp1 Htr' H) as (syms' & marks' & Hinv' & Hb' & Hr' & Hall & Hf2 & Hcomp').
+    exists syms', (((length syms1 - 1)%nat, s, t) :: marks'). rewrite <- app_assoc in Hall, Hcomp'. cbn [app] in Hall, Hcomp'.
     split; [exact Hinv'|]. split; [congruence|]. split; [congruence|]. split; [exact Hall|].
-    constructor; [split; reflexivity|exact Hf2].
+    split; [constructor; [split; reflexivity|exact Hf2]|exact Hcomp'].
 Qed.
 
 (* ---------- TWCC round trip ---------- *)
 
-Definition twcc_base (p : pkt) : Z := p_base p.
+Lemma Forall2_Forall_l {A B} (R : A -> B -> Prop) (P : B -> Prop) (Q : A -> Prop) l1 l2 :
+  Forall2 R l1 l2 -> Forall P l2 -> (forall a b, R a b -> P b -> Q a) -> Forall Q l1.
+Proof.
+  intros H2 HP Himp. induction H2 as [|a b l1 l2 Hab H2 IH]; [constructor|].
+  constructor; [apply (Himp a b Hab), (Forall_inv HP)|apply IH, (Forall_inv_tail HP)].
+Qed.
+
+Lemma Forall2_In_r {A B} (R : A -> B -> Prop) l1 l2 b :
+  Forall2 R l1 l2 -> In b l2 -> exists a, In a l1 /\ R a b.
+Proof.
+  intros H2. induction H2 as [|a0 b0 l1 l2 Hab H2 IH]; intros Hin; [destruct Hin|].
+  destruct Hin as [<-|Hin]; [exists a0; split; [now left|exact Hab]|].
+  destruct (IH Hin) as (a & Ha & Hr). exists a. split; [now right|exact Hr].
+Qed.
+
+(* what the adapter returns at offset k for a recorded arrival (s, t) *)
+Definition arrival_ack (h : hist) (base : Z) (acks : list ack) (k : nat) (s t : Z) : Prop :=
+  exists T, (k < length acks)%nat /\ (base + Z.of_nat k) mod 65536 = s /\
+    Z.abs (T - t * 1000) <= 125000 /\
+    nth k acks zero_ack = match hget h 0 s with Some a => set_arr a T | None => zero_ack end.
+
+(* the complete round trip: syms = the statuses fed to the builder; the adapter accepts the
+   packet, returns one entry per status plus fewer than 7 for the padding of the last chunk,
+   every recorded arrival is acknowledged at its offset within 125 us, and EVERY offset below
+   the status count is either such a recorded arrival or reads "not received" (the history
+   record unchanged) - no phantom arrivals *)
+Theorem roundtrip_twcc_exact b t0 tr f sender media fbc h :
+  0 <= b < 65536 -> 0 <= Z.quot t0 64000 < 16777216 ->
+  Forall (fun e : Z * Z => 0 <= fst e < 65536) tr ->
+  fb_adds (fb_new b t0) tr = Some f ->
+  let p := fb_get_rtcp sender media fbc f in
+  exists syms acks k7,
+    fb_inv f syms /\ (k7 < 7)%nat /\
+    on_twcc h (p_base p) (p_ref p) (map chunk_of_wire (p_chunks p)) (map snd (p_deltas p)) = Some acks /\
+    length acks = (length syms + k7)%nat /\
+    Forall (fun e : Z * Z => exists k, arrival_ack h (p_base p) acks k (fst e) (snd e)) tr /\
+    forall k, (k < length syms)%nat ->
+      (exists s t, In (s, t) tr /\ arrival_ack h (p_base p) acks k s t) \/
+      nth k acks zero_ack =
+        match hget h 0 ((p_base p + Z.of_nat k) mod 65536) with Some a => a | None => zero_ack end.
+Proof.
+  intros Hb Hr Htr Hadds p.
+  assert (Hc0 : marks_complete [] []) by (intros k Hk; cbn in Hk; lia).
+  destruct (fb_adds_marks tr (fb_new b t0) [] [] f (fb_new_inv b t0 Hb) (Forall_nil _) Hc0 Htr Hadds)
+    as (syms & marks & Hinv & Hbase & Href & Hall & Hf2 & Hcomp).
+  cbn [app] in Hall, Hcomp. cbn [fb_new f_base f_ref] in Hbase, Href.
+  destruct (drained_statuses f syms Hinv) as (_ & k7 & Hk7 & Hst).
+  assert (Hsyms : symbols (map chunk_of_wire (p_chunks p)) = syms ++ repeat 0 k7).
+  { rewrite symbols_of_wire. exact Hst. }
+  assert (Hpb : p_base p = b) by (subst p; cbn; exact Hbase).
+  assert (Hpr : p_ref p = Z.quot t0 64000).
+  { subst p. cbn [fb_get_rtcp p_ref]. rewrite Href. lia. }
+  assert (Hpd : p_deltas p = f_deltas f) by reflexivity.
+  assert (Hnd : ndeltas (syms ++ repeat 0 k7) = length (map snd (p_deltas p))).
+  { rewrite ndeltas_app, ndeltas_zeros, Nat.add_0_r, map_length, Hpd. apply ndeltas_deltas, Hinv. }
+  destruct (on_twcc h (p_base p) (p_ref p) (map chunk_of_wire (p_chunks p)) (map snd (p_deltas p))) as [acks|] eqn:E.
+  2:{ exfalso. apply twcc_rejected_iff in E; [|lia]. rewrite Hsyms, Hnd in E. lia. }
+  exists syms, acks, k7. split; [exact Hinv|]. split; [exact Hk7|]. split; [reflexivity|].
+  assert (Hpb' : 0 <= p_base p < 65536) by lia.
+  destruct (twcc_position _ _ _ _ _ _ Hpb' E) as [Hlen Hpos]. rewrite Hsyms in Hlen, Hpos.
+  rewrite app_length, repeat_length in Hlen. split; [exact Hlen|].
+  assert (Hmark : forall k s t, mark_ok f syms (k, s, t) -> arrival_ack h (p_base p) acks k s t).
+  { intros k s t (Hk & Hsym & Hq & Ht).
+    exists ((f_ref f * 64000 + zsum (firstn (ndeltas (firstn (S k) syms)) (map snd (f_deltas f)))) * 1000).
+    split; [lia|]. split; [rewrite Hpb, <- Hbase; exact Hq|]. split; [lia|].
+    rewrite Hpos by (rewrite app_length; lia). rewrite Hpb, <- Hbase, Hq.
+    unfold decode_at. destruct (hget h 0 s); [|reflexivity].
+    rewrite app_nth1 by exact Hk. rewrite Hsym. f_equal. unfold arrival_at.
+    rewrite firstn_app. replace (S k - length syms)%nat with 0%nat by lia. rewrite firstn_O, app_nil_r.
+    rewrite Hpr, Hpd, <- Href. lia. }
+  split.
+  - apply (Forall2_Forall_l _ _ _ _ _ Hf2 Hall). intros [s t] [[k s'] t'] [H1 H2] Hmk.
+    cbn [fst snd] in *. subst s' t'. exists k. apply Hmark, Hmk.
+  - intros k Hk. destruct (is_delta_sym (nth k syms 0)) eqn:Ed.
+    + left. destruct (Hcomp k Hk Ed) as (s & t & Hin).
+      rewrite Forall_forall in Hall. pose proof (Hall _ Hin) as Hmk.
+      destruct (Forall2_In_r _ _ _ _ Hf2 Hin) as ([s1 t1] & Hin1 & H1 & H2). cbn [fst snd] in H1, H2. subst s1 t1.
+      exists s, t. split; [exact Hin1|apply Hmark, Hmk].
+    + right. rewrite Hpos by (rewrite app_length; lia). unfold decode_at.
+      rewrite app_nth1 by exact Hk. rewrite Ed. destruct (hget h 0 _); reflexivity.
+Qed.
 
 Theorem roundtrip_twcc b t0 tr f sender media fbc h :
   0 <= b < 65536 -> 0 <= Z.quot t0 64000 < 16777216 ->
@@ -165,35 +269,9 @@ Theorem roundtrip_twcc b t0 tr f sender media fbc h :
         nth k acks zero_ack = match hget h 0 s with Some a => set_arr a T | None => zero_ack end) tr.
 Proof.
   intros Hb Hr Htr Hadds p.
-  destruct (fb_adds_marks tr (fb_new b t0) [] [] f (fb_new_inv b t0 Hb) (Forall_nil _) Htr Hadds)
-    as (syms & marks & Hinv & Hbase & Href & Hall & Hf2).
-  cbn [app] in Hall. cbn [fb_new f_base f_ref] in Hbase, Href.
-  destruct (drained_statuses f syms Hinv) as (_ & k7 & Hk7 & Hst).
-  assert (Hsyms : symbols (map chunk_of_wire (p_chunks p)) = syms ++ repeat 0 k7).
-  { rewrite symbols_of_wire. exact Hst. }
-  assert (Hpb : p_base p = b) by (subst p; cbn; exact Hbase).
-  assert (Hpr : p_ref p = Z.quot t0 64000).
-  { subst p. cbn [fb_get_rtcp p_ref]. rewrite Href. lia. }
-  assert (Hpd : p_deltas p = f_deltas f) by reflexivity.
-  assert (Hnd : ndeltas (syms ++ repeat 0 k7) = length (map snd (p_deltas p))).
-  { rewrite ndeltas_app, ndeltas_zeros, Nat.add_0_r, map_length, Hpd. apply ndeltas_deltas, Hinv. }
-  destruct (on_twcc h (p_base p) (p_ref p) (map chunk_of_wire (p_chunks p)) (map snd (p_deltas p))) as [acks|] eqn:E.
-  2:{ exfalso. apply twcc_rejected_iff in E; [|lia]. rewrite Hsyms, Hnd in E. lia. }
-  exists acks. split; [reflexivity|].
-  assert (Hpb' : 0 <= p_base p < 65536) by lia.
-  destruct (twcc_position _ _ _ _ _ _ Hpb' E) as [Hlen Hpos]. rewrite Hsyms in Hlen, Hpos.
-  clear E Hadds. revert Htr Hall. induction Hf2 as [|[s t] [[k s'] t'] tr' marks' [H1 H2] Hf2 IH]; intros Htr Hall; [constructor|].
-  cbn [fst snd] in H1, H2. subst s' t'.
-  pose proof (Forall_inv Hall) as Hmk. pose proof (Forall_inv_tail Hall) as Hall'.
-  constructor; [|apply IH; [exact (Forall_inv_tail Htr)|exact Hall']].
-  destruct Hmk as (Hk & Hsym & Hq & Ht).
-  exists k, ((f_ref f * 64000 + zsum (firstn (ndeltas (firstn (S k) syms)) (map snd (f_deltas f)))) * 1000).
-  split; [rewrite Hlen, app_length; lia|]. split; [rewrite Hpb, <- Hbase; exact Hq|]. split; [lia|].
-  rewrite Hpos by (rewrite app_length; lia). rewrite Hpb, <- Hbase, Hq.
-  unfold decode_at. destruct (hget h 0 s); [|reflexivity].
-  rewrite app_nth1 by exact Hk. rewrite Hsym. f_equal. unfold arrival_at.
-  rewrite firstn_app. replace (S k - length syms)%nat with 0%nat by lia. rewrite firstn_O, app_nil_r.
-  rewrite Hpr, Hpd, <- Href. lia.
+  destruct (roundtrip_twcc_exact b t0 tr f sender media fbc h Hb Hr Htr Hadds) as (syms & acks & k7 & _ & _ & E & _ & Hall & _).
+  exists acks. split; [exact E|]. eapply Forall_impl; [|exact Hall].
+  intros [s t] (k & T & H). exists k, T. exact H.
 Qed.
 
 (* end to end with the adapter's own history: after ANY operation list, feeding a builder
